@@ -62,11 +62,10 @@ theorem cornacchiaPrime_sound (n p x y : Int) (h : ibzCornacchiaPrime n p = .ok 
       · rename_i r0 prod hl
         exact cornFinish_sound _ _ _ _ _ _ (cornLoop_prod _ _ _ _ _ _ hl).1 h
 
-/-- `ibz_cornacchia_special_prime`: sound whenever the shortcut exits are not taken
-    (p = 2 with n = 1, and gcd(p,n) ≠ 1, are the two exits that return 1 without a solution) -/
-theorem cornacchiaSpecialPrime_sound (xy0 : Int × Int) (n p : Int) (e : Nat) (x y : Int)
-    (hp2 : ¬ (p = 2 ∧ n = 1)) (hg : p = 2 ∨ (gcdext p n).1 = 1)
-    (h : ibzCornacchiaSpecialPrime xy0 n p e = .ok (x, y)) :
+/-- `ibz_cornacchia_special_prime` (repaired): sound unless p = 2 ∧ n = 1 (excluded by the contract n ≡ 3 mod 4) -/
+theorem cornacchiaSpecialPrime_sound (n p : Int) (e : Nat) (x y : Int)
+    (hp2 : ¬ (p = 2 ∧ n = 1))
+    (h : ibzCornacchiaSpecialPrime n p e = .ok (x, y)) :
     x * x + n * (y * y) = p * 2 ^ e := by
   unfold ibzCornacchiaSpecialPrime at h
   simp only at h
@@ -75,12 +74,8 @@ theorem cornacchiaSpecialPrime_sound (xy0 : Int × Int) (n p : Int) (e : Nat) (x
     split at h
     · rename_i hn1; exact absurd ⟨hp, hn1⟩ hp2
     · exact absurd h (by simp)
-  · rename_i hp
-    split at h
-    · rename_i hgn
-      rcases hg with hg | hg
-      · exact absurd hg hp
-      · exact absurd hg hgn
+  · split at h
+    · exact absurd h (by simp)
     · split at h
       · exact absurd h (by simp)
       · exact absurd h (by simp)
